@@ -97,6 +97,13 @@ type Prop struct {
 	Finish func(a *Agg)
 	// SpinCPU: seconds of CPU without progress that make a spin (default 3)
 	NoWatchdog bool
+	// PassiveWatchdog: for checks that run real listeners, real sockets and dozens of goroutines of their own in the
+	// child (C09, C14, C15, C19). There CPU is legitimately consumed without a scripted-transport or handler event
+	// (TLS handshakes, goroutine profiles, the race detector), so "CPU without an event" says nothing about the
+	// server; these checks have structural verdicts of their own. The watchdog then only ends a child that made no
+	// progress at all for 90 s; that is a violation only if the goroutine dump shows a lifecycle call or a connection
+	// loop of the framework parked on a lock (a deadlock), otherwise inconclusive.
+	PassiveWatchdog bool
 }
 
 var Props = map[string]*Prop{}
@@ -251,7 +258,7 @@ func ChildMain(p *Prop, tier string, seed uint64, from, to int) {
 			curMu.Lock()
 			defer curMu.Unlock()
 			return int(cur)
-		}, emit)
+		}, emit, p.PassiveWatchdog)
 	}
 	timedOut := 0
 	for i := from; i < to; i++ {
@@ -334,7 +341,7 @@ func cpuSeconds() float64 {
 // it is a STALL candidate when the clock did not advance for 20 s of wall
 // time with no CPU use (the parent treats that as inconclusive unless the
 // goroutine dump shows the serving goroutine parked in framework code).
-func watchdog(cur func() int, emit func(line)) {
+func watchdog(cur func() int, emit func(line), passive bool) {
 	last := sconn.Progress()
 	lastCPU := cpuSeconds()
 	lastWall := time.Now()
@@ -353,7 +360,11 @@ func watchdog(cur func() int, emit func(line)) {
 		cpu := cpuSeconds() - lastCPU
 		wall := time.Since(lastWall)
 		kind := ""
-		if cpu >= 3.0 {
+		if passive {
+			if wall > 90*time.Second {
+				kind = "hang"
+			}
+		} else if cpu >= 3.0 {
 			kind = "spin"
 		} else if wall > 20*time.Second {
 			kind = "stall"
@@ -472,7 +483,22 @@ func runBatch(p *Prop, a *Agg, b batch, bin string) {
 				var r Result
 				r.Idx = idx
 				desc := p.Describe(idx)
-				if l.Kind == "spin" {
+				if l.Kind == "hang" {
+					// no progress of any kind for 90 s. A goroutine inside a lifecycle call or the connection loop of the
+					// framework that is parked on a lock or a WaitGroup is a deadlock; anything else is inconclusive.
+					r.Inconclusive = "watchdog:hang"
+					for _, g := range strings.Split(stderr.String(), "\n\n") {
+						lines := strings.Split(g, "\n")
+						if len(lines) < 3 || !strings.Contains(g, "github.com/cybergarage/go-redis/redis.(*Server).") {
+							continue
+						}
+						if strings.Contains(lines[0], "sync.Mutex.Lock") || strings.Contains(lines[0], "sync.RWMutex") || strings.Contains(lines[0], "sync.WaitGroup.Wait") || strings.Contains(lines[0], "semacquire") {
+							r.Inconclusive = ""
+							r.Violate("stall:"+caseSig(desc), "no spin/stall: a lifecycle call or connection loop of the framework parked on a lock", l.Info+"\n"+tail(g, 2500), desc)
+							break
+						}
+					}
+				} else if l.Kind == "spin" {
 					r.Violate("spin:"+caseSig(desc), "no spin/stall: the serving goroutine consumed CPU without any transport or handler event", l.Info, desc)
 				} else {
 					dump := stderr.String()
